@@ -1267,7 +1267,8 @@ func (c *Canonicalizer) NormalizeOperand(v ssa.Value, context ssa.Instruction) s
 		return fmt.Sprintf("const(%s):%s", operand.Value.ExactString(), sanitizeType(operand.Type()))
 	case *ssa.Global:
 		pkgPath := ""
-		if operand.Pkg != nil && operand.Pkg.Pkg != nil {
+		ownPkg := c.subject != nil && c.subject.Pkg != nil && operand.Pkg == c.subject.Pkg
+		if operand.Pkg != nil && operand.Pkg.Pkg != nil && !ownPkg {
 			pkgPath = operand.Pkg.Pkg.Path()
 		}
 		return fmt.Sprintf("<global:%s.%s:%s>", pkgPath, operand.Name(), sanitizeType(operand.Type()))
@@ -1320,6 +1321,12 @@ func (c *Canonicalizer) funcRefName(fn *ssa.Function) string {
 		if root := outermostFunction(c.subject); root != nil && outermostFunction(fn) == root {
 			return "<nest:" + nestPath(fn, root) + ">"
 		}
+	}
+	// A function of the subject's own package is named relative to that package: the same source
+	// compiled under another import path (old/ and new/ copies of a file in one module) must give
+	// the same IR. Functions of other packages keep their full path.
+	if c.subject != nil && c.subject.Pkg != nil && fn.Pkg == c.subject.Pkg {
+		return fn.RelString(c.subject.Pkg.Pkg)
 	}
 	return fn.String()
 }
